@@ -745,19 +745,20 @@ func (e *Engine) switchStmt(s *ast.SwitchStmt, in []*State) []*State {
 	}
 	remaining := in
 	var outs []*State
-	var dflt *ast.CaseClause
 	e.pushTarget(s, false)
+	// the case expressions are evaluated in source order, whatever the bodies do; the default clause takes what is left
+	bodyIn := map[*ast.CaseClause][]*State{}
+	var dflt *ast.CaseClause
 	for _, c := range s.Body.List {
 		cc := c.(*ast.CaseClause)
 		if cc.List == nil {
 			dflt = cc
 			continue
 		}
-		var bodyIn []*State
 		for _, ce := range cc.List {
 			if s.Tag == nil {
 				t, f := e.cond(ce, remaining)
-				bodyIn = append(bodyIn, t...)
+				bodyIn[cc] = append(bodyIn[cc], t...)
 				remaining = f
 			} else {
 				remaining = e.expr(ce, remaining)
@@ -770,30 +771,39 @@ func (e *Engine) switchStmt(s *ast.SwitchStmt, in []*State) []*State {
 						f = append(f, n)
 					}
 				}
-				bodyIn = append(bodyIn, t...)
+				bodyIn[cc] = append(bodyIn[cc], t...)
 				remaining = f
 			}
 		}
-		e.checkFallthrough(cc)
-		outs = append(outs, e.pruneScope(e.stmts(cc.Body, bodyIn), cc)...)
 	}
 	if dflt != nil {
-		e.checkFallthrough(dflt)
-		outs = append(outs, e.pruneScope(e.stmts(dflt.Body, remaining), dflt)...)
+		bodyIn[dflt] = remaining
 	} else {
 		outs = append(outs, remaining...)
 	}
+	// the bodies in source order: a clause that ends in fallthrough hands its states to the body of the next clause
+	var carry []*State
+	for _, c := range s.Body.List {
+		cc := c.(*ast.CaseClause)
+		body := cc.Body
+		falls := false
+		if n := len(body); n > 0 {
+			if b, ok := body[n-1].(*ast.BranchStmt); ok && b.Tok == token.FALLTHROUGH {
+				body, falls = body[:n-1], true
+			}
+		}
+		res := e.pruneScope(e.stmts(body, append(bodyIn[cc], carry...)), cc)
+		carry = nil
+		if falls {
+			carry = res
+		} else {
+			outs = append(outs, res...)
+		}
+	}
+	outs = append(outs, carry...)
 	outs = append(outs, e.take(e.brk, s)...)
 	e.popTarget()
 	return outs
-}
-
-func (e *Engine) checkFallthrough(cc *ast.CaseClause) {
-	if n := len(cc.Body); n > 0 {
-		if b, ok := cc.Body[n-1].(*ast.BranchStmt); ok && b.Tok == token.FALLTHROUGH {
-			e.unsupported(b, "fallthrough")
-		}
-	}
 }
 
 func (e *Engine) typeSwitchStmt(s *ast.TypeSwitchStmt, in []*State) []*State {
@@ -907,6 +917,14 @@ func (e *Engine) expr(x ast.Expr, in []*State) []*State {
 		}
 		in = e.expr(x.X, in)
 		in = e.expr(x.Index, in)
+		if entries := e.P.constTable(x.X); entries != nil && constOf(e.Info, x.Index) == nil {
+			// a look-up in a constant table: one state per row the key may name, and one for a key that names none
+			var res []*State
+			for _, st := range in {
+				res = append(res, e.tableLookup(st, x, entries)...)
+			}
+			in = compact(res)
+		}
 		return e.visit(x, in)
 	case *ast.SliceExpr:
 		in = e.expr(x.X, in)
@@ -1702,6 +1720,49 @@ func (e *Engine) assignCore(st *State, lhs, rhs []ast.Expr, tok token.Token, stm
 			aliases = append(aliases, e.aliasTarget(st, r))
 		}
 	}
+	// x := &T{F: v, ...} / x = T{F: v}: what is known about v is known about x.F (judged before x is overwritten)
+	var litFacts []map[*types.Var]*Fact
+	if simple && len(lhs) == len(rhs) {
+		for _, r := range rhs {
+			var m map[*types.Var]*Fact
+			if lit := litOf(r); lit != nil {
+				if _, isStruct := e.Info.TypeOf(lit).Underlying().(*types.Struct); isStruct {
+					for _, el := range lit.Elts {
+						kv, isKV := el.(*ast.KeyValueExpr)
+						if !isKV {
+							continue
+						}
+						fld, _ := objOf(e.Info, kv.Key).(*types.Var)
+						if fld == nil {
+							continue
+						}
+						if f := e.valueOf(st, kv.Value); f != nil && (f.Nil != 0 || f.HasEq || f.Lo != nil || f.Hi != nil || len(f.Tags) > 0 || len(f.TyIn) > 0) {
+							if m == nil {
+								m = map[*types.Var]*Fact{}
+							}
+							m[fld] = f
+						}
+					}
+				}
+			}
+			// v := T[k] with T a constant table of struct rows: what the look-up established about the row's fields
+			if ix, isIx := ast.Unparen(r).(*ast.IndexExpr); isIx && m == nil && e.P.constTable(ix.X) != nil {
+				if stt, isStruct := e.Info.TypeOf(ix).Underlying().(*types.Struct); isStruct {
+					if rk := e.canon(st, ix); rk.OK {
+						for i := 0; i < stt.NumFields(); i++ {
+							if f := st.facts[rk.Key+"."+fldName(stt.Field(i))]; f != nil && f.HasEq {
+								if m == nil {
+									m = map[*types.Var]*Fact{}
+								}
+								m[stt.Field(i)] = &Fact{HasEq: true, Eq: f.Eq}
+							}
+						}
+					}
+				}
+			}
+			litFacts = append(litFacts, m)
+		}
+	}
 	var okAlias *keyInfo
 	if simple && len(lhs) == 2 && len(rhs) == 1 {
 		if ta, ok := ast.Unparen(rhs[0]).(*ast.TypeAssertExpr); ok {
@@ -1748,6 +1809,18 @@ func (e *Engine) assignCore(st *State, lhs, rhs []ast.Expr, tok token.Token, stm
 					f.Nil, f.HasEq, f.Eq, f.Ne, f.Lo, f.Hi, f.TyIn, f.TyOut, f.Tags = v.Nil, v.HasEq, v.Eq, v.Ne, v.Lo, v.Hi, v.TyIn, v.TyOut, v.Tags
 				}); n != nil {
 					st = n
+				}
+			}
+			if i < len(litFacts) && litFacts[i] != nil {
+				for fld, v := range litFacts[i] {
+					fk := k.merge(keyInfo{Fields: []*types.Var{fld}})
+					fk.Key, fk.OK, fk.Value = k.Key+"."+fldName(fld), true, false
+					v := v
+					if n := e.update(st, fk, func(f *Fact) {
+						f.Nil, f.HasEq, f.Eq, f.Ne, f.Lo, f.Hi, f.TyIn, f.TyOut, f.Tags = v.Nil, v.HasEq, v.Eq, v.Ne, v.Lo, v.Hi, v.TyIn, v.TyOut, v.Tags
+					}); n != nil {
+						st = n
+					}
 				}
 			}
 			if lb := lenAfter[i]; lb != nil {
@@ -1943,8 +2016,10 @@ func (e *Engine) tableSplit(st *State, lhs []ast.Expr, ix *ast.IndexExpr, entrie
 	for _, kv := range entries {
 		hit := e.assumeCompare(st, ix.Index, token.EQL, kv.Key, true)
 		hit = setOK(hit, true)
-		if hit != nil && vID != nil && vID.Name != "_" && constOf(e.Info, kv.Value) != nil {
-			hit = e.assumeCompare(hit, vID, token.EQL, kv.Value, true)
+		if hit != nil && vID != nil && vID.Name != "_" {
+			if vk := e.canon(hit, vID); vk.OK && e.tracked(vk) {
+				hit = e.rowFacts(hit, vk, kv.Value, e.Info.TypeOf(ix))
+			}
 		}
 		if hit != nil {
 			out = append(out, hit)
@@ -1954,9 +2029,125 @@ func (e *Engine) tableSplit(st *State, lhs []ast.Expr, ix *ast.IndexExpr, entrie
 		}
 	}
 	if miss = setOK(miss, false); miss != nil {
+		if vID != nil && vID.Name != "_" {
+			if vk := e.canon(miss, vID); vk.OK && e.tracked(vk) {
+				if n := e.rowFacts(miss, vk, nil, e.Info.TypeOf(ix)); n != nil {
+					miss = n
+				}
+			}
+		}
 		out = append(out, miss)
 	}
 	return out
+}
+
+// tableLookup splits a state on the row of a constant table that T[k] names: in each part k equals the row's key and
+// T[k] (and, for a row that is a struct literal, its fields) equals the row's constants; in the last part k equals no
+// key and T[k] is the zero value.
+func (e *Engine) tableLookup(st *State, ix *ast.IndexExpr, entries []*ast.KeyValueExpr) []*State {
+	if k := e.canon(st, ix.Index); !k.OK {
+		return []*State{st}
+	}
+	self := e.canon(st, ix)
+	if !self.OK {
+		return []*State{st}
+	}
+	var out []*State
+	miss := st
+	for _, kv := range entries {
+		hit := e.assumeCompare(st, ix.Index, token.EQL, kv.Key, true)
+		if hit != nil {
+			hit = e.rowFacts(hit, self, kv.Value, e.Info.TypeOf(ix))
+		}
+		if hit != nil {
+			out = append(out, hit)
+		}
+		if miss != nil {
+			miss = e.assumeCompare(miss, ix.Index, token.EQL, kv.Key, false)
+		}
+	}
+	if miss != nil {
+		if miss = e.rowFacts(miss, self, nil, e.Info.TypeOf(ix)); miss != nil {
+			out = append(out, miss)
+		}
+	}
+	return out
+}
+
+// zeroConst is the constant key of the zero value of a basic type ("" if the type has none).
+func zeroConst(t types.Type) string {
+	b, ok := t.Underlying().(*types.Basic)
+	if !ok {
+		return ""
+	}
+	switch {
+	case b.Info()&types.IsString != 0:
+		return `""`
+	case b.Info()&types.IsBoolean != 0:
+		return "false"
+	case b.Info()&types.IsNumeric != 0:
+		return "0"
+	}
+	return ""
+}
+
+// rowFacts records at the path k what a table row's value v says (v == nil: the zero value of t).
+func (e *Engine) rowFacts(st *State, k keyInfo, v ast.Expr, t types.Type) *State {
+	set := func(st *State, k keyInfo, eq string) *State {
+		if st == nil || eq == "" {
+			return st
+		}
+		return e.update(st, k, func(f *Fact) {
+			if f.HasEq && f.Eq != eq {
+				f.Ne = addSorted(f.Ne, eq)
+			}
+			f.HasEq, f.Eq = true, eq
+		})
+	}
+	if st == nil || t == nil {
+		return st
+	}
+	if tup, isTuple := t.(*types.Tuple); isTuple && tup.Len() > 0 {
+		t = tup.At(0).Type() // v, ok := T[k]
+	}
+	if stt, isStruct := t.Underlying().(*types.Struct); isStruct {
+		given := map[*types.Var]ast.Expr{}
+		if v != nil {
+			lit := litOf(v)
+			if lit == nil {
+				return st
+			}
+			for i, el := range lit.Elts {
+				if kv, isKV := el.(*ast.KeyValueExpr); isKV {
+					if fld, _ := objOf(e.Info, kv.Key).(*types.Var); fld != nil {
+						given[fld] = kv.Value
+					}
+				} else if i < stt.NumFields() {
+					given[stt.Field(i)] = el
+				}
+			}
+		}
+		for i := 0; i < stt.NumFields() && st != nil; i++ {
+			fld := stt.Field(i)
+			fk := k.merge(keyInfo{Fields: []*types.Var{fld}})
+			fk.Key, fk.OK, fk.Value, fk.Heap = k.Key+"."+fldName(fld), true, false, k.Heap
+			if gv := given[fld]; gv != nil {
+				if c := constOf(e.Info, gv); c != nil {
+					st = set(st, fk, constKey(c))
+				}
+			} else {
+				st = set(st, fk, zeroConst(fld.Type()))
+			}
+		}
+		return st
+	}
+	if v == nil {
+		return set(st, k, zeroConst(t))
+	}
+	if c := constOf(e.Info, v); c != nil {
+		return set(st, k, constKey(c))
+	}
+	return st
 }
 
 // commaOK records the meaning of `v, ok := x.(T)`, `v, ok := m[k]`.
